@@ -69,6 +69,7 @@ def build_soc(cfg):
         def __init__(self):
             self.a = CSRStorage(1, name="a")
             self.b = CSRStorage(40, reset=0x1234, name="b")
+            self.w = CSRStorage(72, reset=0x55, name="w")      # wider than any C type: no accessor is generated, the registers after it must keep theirs right
             self.c = CSRStatus(9, name="c")
             self.d = CSRStorage(64, atomic_write=True, name="d")
             self.e = CSRStorage(9, name="e")
